@@ -48,6 +48,6 @@ For each change k in {{1,2}} deliver into {out}/ :
   patch{{k}}.diff      — `git diff` of the change against the worktree's HEAD (only that change; library source only, no test files)
   demo{{k}}_test.go    — a self-contained Go test file (package avro, or package avro_test / time / null as appropriate; state the package directory in the notes if it is not the repository root) that FAILS with the change applied and PASSES on the unchanged tree. It must not depend on anything outside the repository and the standard library, and must not collide with names in the existing test files (prefix your identifiers with SeedN{pid}).
   notes{{k}}.md        — 10–25 lines: what was changed and why it looks innocent, exactly what is needed for it to manifest, which clause of the property it breaks, and the commands you ran (existing suite with the change: pass; demo with the change: fail; demo without: pass). If the demo needs `-race` or GODEBUG=clobberfree=1 to fail, say so literally in the notes.
-Verify all of that yourself before finishing: apply change 1 alone (git stash / git checkout to reset between the two), run the suite, run the demo, revert, run the demo again; same for change 2. Leave the worktree clean (git checkout -- . ; remove your demo files from it) when done. Your final message should be a 5-line summary per change (files touched, trigger, which clause breaks)."""
+Verify all of that yourself before finishing: apply change 1 alone (use `git diff > file`, `git checkout -- .` and `git apply file` to switch between the two; never `git stash`, the stash is shared with other worktrees), run the suite, run the demo, revert, run the demo again; same for change 2. Leave the worktree clean (git checkout -- . ; remove your demo files from it) when done. Your final message should be a 5-line summary per change (files touched, trigger, which clause breaks)."""
     open('/tmp/%s/prompt-%s.txt' % (ROUND, pid), 'w').write(txt)
 print('ok')
